@@ -1,4 +1,6 @@
 /* S-table: operation sequences on htp_table_* */
+static void do_table(char **f, int nf);
+static int drv_table(char **f, int nf) { if (strcmp(f[0], "table") != 0) return 0; do_table(f, nf); return 1; }
 static void do_table(char **f, int nf) {
     if (nf < 3) { printf("?args"); return; }
     htp_table_t *t = htp_table_create((size_t) atol(f[1]));
